@@ -364,6 +364,9 @@ const protAlpha = "ARNDCQEGHILKMFPSTWYVBZX"
 
 func genAlign(c *Ctx, prop string) {
 	alignRound4(c, prop)
+	if prop != "C10" {
+		alignLopsided(c, prop)
+	}
 	opens := []int{0}
 	switch prop {
 	case "C08":
@@ -408,6 +411,12 @@ func genAlign(c *Ctx, prop string) {
 	// random longer pairs over random matrices
 	for i := 0; i < c.n(500); i++ {
 		al := []byte("acgt")[:2+c.rng.Intn(3)]
+		switch i % 5 {
+		case 3: // the same letter in both cases, scored differently (soft-masked sequence)
+			al = [][]byte{[]byte("Aa"), []byte("ACac"), []byte("ACGTacgt"), []byte("AaBb"), []byte("aAn")}[c.rng.Intn(5)]
+		case 4: // bytes that agree in their low 5 / low 6 / low 7 bits
+			al = [][]byte{{0x41, 0x61, 0x21}, {0x01, 0x41, 0x81, 0xc1}, {0x41, 0xc1}, {0x00, 0x80, 0x40}, {0x7e, 0xfe, 0x3e}}[c.rng.Intn(5)]
+		}
 		open := opens[c.rng.Intn(len(opens))]
 		mt := c.randMatrix(al, c.rng.Intn(2) == 0, prop != "C08" || c.rng.Intn(3) != 0, open)
 		alignCase(c, prop, mt, c.bytesFrom(al, c.rng.Intn(60)), c.bytesFrom(al, c.rng.Intn(60)), "random")
@@ -1179,6 +1188,7 @@ func genC15(c *Ctx) {
 func genC16(c *Ctx) {
 	regionsRound6(c)
 	regionsRound7(c)
+	regionsRound9(c)
 	regionsRound4(c)
 	run := func(starts, ends []int, queries []int, kind string) {
 		var idx *regions.Index
